@@ -237,3 +237,6 @@ _build1d = build
 def build(chk):
     _build1d(chk)
     build2d(chk)
+    # the wall clause of the flux contract used for the slip-wall invariance (every registered flux, C16 wall-flux lemma)
+    from . import C16
+    chk.include(C16, r"^wall/", "uses:C16")
